@@ -26,7 +26,7 @@ use std::ops::Deref;
 use std::time::Duration;
 
 thread_local! {
-    static OS_IPC_CHANNELS_FOR_DESERIALIZATION: RefCell<Vec<OsOpaqueIpcChannel>> =
+    static OS_IPC_CHANNELS_FOR_DESERIALIZATION: RefCell<Vec<Option<OsOpaqueIpcChannel>>> =
         RefCell::new(Vec::new())
 }
 thread_local! {
@@ -517,14 +517,7 @@ impl IpcReceiverSet {
                     os_ipc_shared_memory_regions,
                 ) => IpcSelectionResult::MessageReceived(
                     os_receiver_id,
-                    OpaqueIpcMessage {
-                        data,
-                        os_ipc_channels,
-                        os_ipc_shared_memory_regions: os_ipc_shared_memory_regions
-                            .into_iter()
-                            .map(Some)
-                            .collect(),
-                    },
+                    OpaqueIpcMessage::new(data, os_ipc_channels, os_ipc_shared_memory_regions),
                 ),
                 OsIpcSelectionResult::ChannelClosed(os_receiver_id) => {
                     IpcSelectionResult::ChannelClosed(os_receiver_id)
@@ -706,7 +699,7 @@ impl IpcSelectionResult {
 /// [to]: #method.to
 pub struct OpaqueIpcMessage {
     data: Vec<u8>,
-    os_ipc_channels: Vec<OsOpaqueIpcChannel>,
+    os_ipc_channels: Vec<Option<OsOpaqueIpcChannel>>,
     os_ipc_shared_memory_regions: Vec<Option<OsIpcSharedMemory>>,
 }
 
@@ -727,7 +720,7 @@ impl OpaqueIpcMessage {
     ) -> OpaqueIpcMessage {
         OpaqueIpcMessage {
             data,
-            os_ipc_channels,
+            os_ipc_channels: os_ipc_channels.into_iter().map(Some).collect(),
             os_ipc_shared_memory_regions: os_ipc_shared_memory_regions
                 .into_iter()
                 .map(Some)
@@ -896,12 +889,7 @@ where
 
     pub fn accept(self) -> Result<(IpcReceiver<T>, T), bincode::Error> {
         let (os_receiver, data, os_channels, os_shared_memory_regions) = self.os_server.accept()?;
-        let value = OpaqueIpcMessage {
-            data,
-            os_ipc_channels: os_channels,
-            os_ipc_shared_memory_regions: os_shared_memory_regions.into_iter().map(Some).collect(),
-        }
-        .to()?;
+        let value = OpaqueIpcMessage::new(data, os_channels, os_shared_memory_regions).to()?;
         Ok((
             IpcReceiver {
                 os_receiver,
@@ -1023,7 +1011,11 @@ where
         if index >= os_ipc_channels_for_deserialization.len() {
             return Err(D::Error::custom("IPC channel index out of bounds"));
         }
-        Ok(os_ipc_channels_for_deserialization[index].to_sender())
+        // Each attached channel can be claimed only once.
+        match os_ipc_channels_for_deserialization[index].take() {
+            Some(mut os_ipc_channel) => Ok(os_ipc_channel.to_sender()),
+            None => Err(D::Error::custom("IPC channel index used twice")),
+        }
     })
 }
 
@@ -1056,6 +1048,12 @@ where
         if index >= os_ipc_channels_for_deserialization.len() {
             return Err(D::Error::custom("IPC channel index out of bounds"));
         }
-        Ok(os_ipc_channels_for_deserialization[index].to_receiver())
+        // Each attached channel can be claimed only once.
+        match os_ipc_channels_for_deserialization[index].take() {
+            // (`to_receiver` takes `&self` on some back ends.)
+            #[allow(unused_mut)]
+            Some(mut os_ipc_channel) => Ok(os_ipc_channel.to_receiver()),
+            None => Err(D::Error::custom("IPC channel index used twice")),
+        }
     })
 }
